@@ -1,5 +1,5 @@
 (** C15 — proofs about Model/Formula.v. *)
-From Coq Require Import ZArith List String Ascii Bool Arith Lia Permutation Sorted.
+From Coq Require Import ZArith List String Ascii Bool Arith Lia Permutation Sorted DecimalString DecimalNat.
 Require Import QV.Common.Outcome QV.Common.HFSort QV.Common.HFHash QV.Model.Formula.
 Import ListNotations.
 
@@ -177,4 +177,207 @@ Proof.
       intros X. apply RemSub in X. revert X. apply RemND. exact ND.
     + exists (remove_str "C" (sorted_keys l)). split; [apply remove_str_sorted; exact Srt|]. split; [apply RemND; exact ND|]. split; [|reflexivity].
       intros X. apply RemSub, Mem, has_In in X. congruence.
+Qed.
+
+(** ---- reading the rendered formula back ---- *)
+Definition plain (c : ascii) : Prop := is_upper c = false /\ is_digit c = false.
+Fixpoint all_plain (s : string) : Prop := match s with EmptyString => True | String c r => plain c /\ all_plain r end.
+(* an element symbol as the formula writes it: an upper-case letter followed by characters that are neither upper-case nor digits *)
+Definition wf_sym (k : string) : Prop := match k with String c r => is_upper c = true /\ all_plain r | EmptyString => False end.
+
+Definition next_ok (t : string) : Prop := match t with EmptyString => True | String c _ => is_upper c = true end.
+
+Lemma append_assoc (a b c : string) : String.append (String.append a b) c = String.append a (String.append b c).
+Proof. induction a; simpl; congruence. Qed.
+
+Lemma parse_plain r : forall k t, all_plain r ->
+  parse_items (String.append r t) (Some (k, NoDigits)) = parse_items t (Some (String.append k r, NoDigits)).
+Proof.
+  induction r as [|c r IH]; intros k t H; simpl.
+  - assert (E : String.append k EmptyString = k) by (induction k; simpl; congruence). rewrite E. reflexivity.
+  - destruct H as [[U D] H]. rewrite U, D. rewrite IH by exact H. rewrite append_assoc. reflexivity.
+Qed.
+
+Lemma parse_digits d : forall k a t,
+  parse_items (String.append (NilEmpty.string_of_uint d) t) (Some (k, Digits a))
+  = parse_items t (Some (k, Digits (Nat.of_uint_acc d a))).
+Proof.
+  induction d; intros k a t; simpl; try reflexivity;
+    rewrite <- IHd; f_equal; f_equal; f_equal; f_equal; rewrite Nat.tail_mul_spec; simpl; lia.
+Qed.
+
+Lemma parse_first_digit d k t : d <> Decimal.Nil ->
+  parse_items (String.append (NilEmpty.string_of_uint d) t) (Some (k, NoDigits))
+  = parse_items (String.append (NilEmpty.string_of_uint d) t) (Some (k, Digits 0)).
+Proof. destruct d; intros H; try contradiction; reflexivity. Qed.
+
+Lemma parse_after_digits k n t : next_ok t ->
+  parse_items t (Some (k, Digits n)) = (k, n) :: parse_items t None.
+Proof. destruct t as [|c r]; simpl; intros H; [reflexivity|]. rewrite H. reflexivity. Qed.
+Lemma parse_after_sym k t : next_ok t ->
+  parse_items t (Some (k, NoDigits)) = (k, 1) :: parse_items t None.
+Proof. destruct t as [|c r]; simpl; intros H; [reflexivity|]. rewrite H. reflexivity. Qed.
+
+Lemma to_uint_nonnil n : Nat.to_uint n <> Decimal.Nil.
+Proof.
+  intros H. assert (E : n = 0) by (rewrite <- (Unsigned.of_to n), H; reflexivity). subst n. discriminate H.
+Qed.
+
+Lemma parse_item k n t : wf_sym k -> 1 <= n -> next_ok t ->
+  parse_items (String.append (render_item (k, n)) t) None = (k, n) :: parse_items t None.
+Proof.
+  intros W N T. destruct k as [|c r]; [contradiction|]. destruct W as [U P].
+  unfold render_item; cbn [fst snd]. rewrite append_assoc. simpl. rewrite U. simpl.
+  rewrite parse_plain by exact P. change (String.append (String c EmptyString) r) with (String c r).
+  destruct (1 <? n) eqn:E.
+  - unfold nat_str. rewrite parse_first_digit by apply to_uint_nonnil.
+    rewrite parse_digits. change (Nat.of_uint_acc (Nat.to_uint n) 0) with (Nat.of_uint (Nat.to_uint n)).
+    rewrite Unsigned.of_to. apply parse_after_digits. exact T.
+  - apply Nat.ltb_ge in E. assert (n = 1) by lia. subst n. simpl. apply parse_after_sym. exact T.
+Qed.
+
+Definition render (its : list (string * nat)) : string := fold_right String.append EmptyString (map render_item its).
+
+Lemma render_next_ok its : Forall (fun it => wf_sym (fst it)) its -> next_ok (render its).
+Proof.
+  destruct 1 as [|[k n] r W _]; simpl; [exact I|]. cbn [fst] in W. destruct k as [|c s]; [contradiction|]. simpl. apply W.
+Qed.
+
+Lemma parse_render its : Forall (fun it => wf_sym (fst it) /\ 1 <= snd it) its -> parse_items (render its) None = its.
+Proof.
+  induction 1 as [|[k n] r [W N] F IH]; [reflexivity|]. cbn [fst snd] in *.
+  change (render ((k, n) :: r)) with (String.append (render_item (k, n)) (render r)).
+  rewrite parse_item; [rewrite IH; reflexivity|exact W|exact N|].
+  apply render_next_ok. rewrite Forall_forall in *. intros it Hit. apply F. exact Hit.
+Qed.
+
+(** the text determines the (symbol, count) items: parsing the formula gives back exactly what was rendered *)
+Theorem parse_formula_roundtrip o syms : Forall wf_sym (map title syms) ->
+  parse_items (formula o syms) None = formula_items o syms.
+Proof.
+  intros W. apply parse_render.
+  destruct (formula_counts o syms) as (_ & M & C).
+  rewrite Forall_forall in *. intros [k n] Hit. cbn [fst snd]. split.
+  - apply W. apply M. apply in_map_iff. exists (k, n). split; [reflexivity|exact Hit].
+  - apply (C k n Hit).
+Qed.
+
+(** ---- str.title() on ASCII: idempotent; alphabetic symbols become well-formed element symbols ---- *)
+Definition cased (c : ascii) : bool := is_upper c || is_lower c.
+Definition tc (b : bool) (c : ascii) : ascii := if cased c then (if b then to_lower c else to_upper c) else c.
+
+Lemma title_from_tc b s : title_from b s = match s with EmptyString => EmptyString | String c r => String (tc b c) (title_from (cased c) r) end.
+Proof. destruct s; reflexivity. Qed.
+
+Lemma tc_props b c : cased (tc b c) = cased c /\ tc b (tc b c) = tc b c.
+Proof. destruct c as [[] [] [] [] [] [] [] []]; destruct b; split; reflexivity. Qed.
+
+Lemma tc_upper c : cased c = true -> is_upper (tc false c) = true.
+Proof. destruct c as [[] [] [] [] [] [] [] []]; intros H; try discriminate H; reflexivity. Qed.
+Lemma tc_lower_plain c : cased c = true -> plain (tc true c).
+Proof. destruct c as [[] [] [] [] [] [] [] []]; intros H; try discriminate H; split; reflexivity. Qed.
+
+Lemma title_from_idem s : forall b, title_from b (title_from b s) = title_from b s.
+Proof.
+  induction s as [|c r IH]; intros b; [reflexivity|].
+  rewrite (title_from_tc b (String c r)). rewrite (title_from_tc b (String (tc b c) _)).
+  destruct (tc_props b c) as [E1 E2]. rewrite E1, E2, IH. reflexivity.
+Qed.
+Lemma title_idem s : title (title s) = title s.
+Proof. apply title_from_idem. Qed.
+
+Fixpoint all_cased (s : string) : Prop := match s with EmptyString => True | String c r => cased c = true /\ all_cased r end.
+Lemma title_tail_plain r : all_cased r -> all_plain (title_from true r).
+Proof.
+  induction r as [|c r IH]; intros H; [exact I|]. destruct H as [C H]. rewrite title_from_tc. rewrite C.
+  split; [apply tc_lower_plain; exact C|apply IH; exact H].
+Qed.
+(** an alphabetic, non-empty symbol is written as an upper-case letter followed by lower-case letters *)
+Lemma title_wf s : s <> EmptyString -> all_cased s -> wf_sym (title s).
+Proof.
+  destruct s as [|c r]; [congruence|]. intros _ [C H]. unfold title. rewrite title_from_tc. rewrite C.
+  split; [apply tc_upper; exact C|apply title_tail_plain; exact H].
+Qed.
+
+(** ---- the formula depends on the symbols only through the counts of their title-cased forms ---- *)
+Lemma count_in_pos k l : In k l <-> 1 <= count_in k l.
+Proof. rewrite count_in_occ. apply (count_occ_In string_dec). Qed.
+
+Lemma keys_of_mem l k : In k (keys_of [] l) <-> In k l.
+Proof. destruct (keys_of_spec l []) as [_ S]. rewrite S. simpl. tauto. Qed.
+
+Lemma sorted_keys_ext l l' : (forall k, count_in k l = count_in k l') -> sorted_keys l = sorted_keys l'.
+Proof.
+  intros H. unfold sorted_keys.
+  apply (isort_perm_invariant String.leb String.leb_total string_leb_trans (fun _ => True)).
+  - intros a b _ _. apply string_leb_antisym.
+  - apply Forall_forall. intros; exact I.
+  - apply NoDup_Permutation; try apply (proj1 (keys_of_spec _ [])).
+    intros k. rewrite !keys_of_mem, !count_in_pos, H. tauto.
+Qed.
+
+Theorem formula_ext o syms syms' :
+  (forall k, count_in k (map title syms) = count_in k (map title syms')) -> formula o syms = formula o syms'.
+Proof.
+  intros H. unfold formula, formula_items, element_order. rewrite (sorted_keys_ext _ _ H).
+  set (X := match o with Alphabetical => _ | Hill => _ end).
+  rewrite (map_ext (fun k => (k, count_in k (map title syms))) (fun k => (k, count_in k (map title syms')))) by (intros k; rewrite H; reflexivity).
+  reflexivity.
+Qed.
+
+(** ---- order_molecular_formula: re-ordering a formula gives the formula of the symbols in the new order ---- *)
+Lemma count_in_app k a b : count_in k (a ++ b) = count_in k a + count_in k b.
+Proof. induction a; simpl; lia. Qed.
+Lemma count_in_repeat k j n : count_in k (repeat j n) = if String.eqb k j then n else 0.
+Proof. induction n; simpl; [destruct (String.eqb k j); reflexivity|]. rewrite IHn. destruct (String.eqb k j); lia. Qed.
+
+Lemma count_in_expand (c : string -> nat) k : forall keys, NoDup keys ->
+  count_in k (flat_map (fun j => repeat j (c j)) keys) = if existsb (String.eqb k) keys then c k else 0.
+Proof.
+  induction 1 as [|j r Hj ND IH]; simpl; [reflexivity|].
+  rewrite count_in_app, count_in_repeat, IH.
+  destruct (String.eqb k j) eqn:E; simpl.
+  - apply String.eqb_eq in E. subst j.
+    assert (X : existsb (String.eqb k) r = false). { apply not_true_is_false. intros X. apply existsb_eqb_In in X. contradiction. }
+    rewrite X. lia.
+  - reflexivity.
+Qed.
+
+Lemma map_title_id l : (forall k, In k l -> title k = k) -> map title l = l.
+Proof. induction l; simpl; intros H; [reflexivity|]. rewrite H by (left; reflexivity). f_equal. apply IHl. intros k Hk. apply H. right; exact Hk. Qed.
+
+Theorem order_formula_consistent o o' syms :
+  formula o (expand (formula_items o' syms)) = formula o syms.
+Proof.
+  apply formula_ext. intros k.
+  destruct (formula_counts o' syms) as (ND & M & C).
+  set (l := map title syms) in *.
+  assert (EX : expand (formula_items o' syms) = flat_map (fun j => repeat j (count_in j l)) (element_order o' syms)).
+  { unfold expand, formula_items. fold l. rewrite flat_map_concat_map, map_map, <- flat_map_concat_map. reflexivity. }
+  assert (KE : map fst (formula_items o' syms) = element_order o' syms).
+  { unfold formula_items. rewrite map_map. simpl. apply map_id. }
+  rewrite KE in ND, M.
+  rewrite EX. rewrite map_title_id.
+  - rewrite (count_in_expand (fun j => count_in j l) k _ ND).
+    destruct (existsb (String.eqb k) (element_order o' syms)) eqn:E; [reflexivity|].
+    assert (N : ~ In k l). { intros X. apply M in X. apply existsb_eqb_In in X. congruence. }
+    destruct (count_in k l) eqn:Z; [reflexivity|]. exfalso. apply N. apply count_in_pos. lia.
+  - intros j Hj. apply in_flat_map in Hj. destruct Hj as (j' & Hj' & Hr). apply repeat_spec in Hr. subst j.
+    apply M in Hj'. unfold l in Hj'. apply in_map_iff in Hj'. destruct Hj' as (s & <- & _). apply title_idem.
+Qed.
+
+(** order_molecular_formula applied to a formula this module wrote: the same symbols in the requested order; in
+    particular re-ordering to the same order is the identity *)
+Theorem order_formula_of_formula o o' syms name :
+  Forall wf_sym (map title syms) -> parse_order name = Ok o ->
+  order_formula (formula o' syms) name = Ok (formula o syms).
+Proof.
+  intros W P. unfold order_formula.
+  assert (S : starts_upper (formula o' syms) = true).
+  { pose proof (render_next_ok (formula_items o' syms)) as R. unfold render in R. fold (formula o' syms) in R.
+    assert (F : Forall (fun it => wf_sym (fst it)) (formula_items o' syms)).
+    { destruct (formula_counts o' syms) as (_ & M & _). rewrite Forall_forall in *. intros [k n] Hit. cbn [fst].
+      apply W. apply M. apply in_map_iff. exists (k, n). split; [reflexivity|exact Hit]. }
+    specialize (R F). destruct (formula o' syms); [reflexivity|exact R]. }
+  rewrite S, P. simpl. rewrite parse_formula_roundtrip by exact W. rewrite order_formula_consistent. reflexivity.
 Qed.
